@@ -3,7 +3,10 @@ package gv
 import (
 	"encoding/json"
 	"fmt"
+	"os"
+	"path/filepath"
 	"regexp"
+	"strings"
 
 	"verif/gosym/engine"
 )
@@ -18,7 +21,94 @@ type tableDump struct {
 		K int `json:"k"`
 		V int `json:"v"`
 	} `json:"actions"`
-	Goto [][]int `json:"goto"`
+	Goto     [][]int        `json:"goto"`
+	TokNames []string       `json:"tok_names"`
+	NTType   map[string]int `json:"nt_type"`
+}
+
+// simJob adds the table-simulation job for a generated parser target (which must already carry
+// the reference tables of g): dumps the generated tables natively, searches the candidate
+// relation from (0,0) and lets the solver-checked harness verify it.
+func (c *Ctx) simJob(t *Target, g *SynGrammar, r *RefLR, name string, run SymRun) (Job, error) {
+	stub := filepath.Join(t.ModDir, "_verifdata", "simpairs_stub.go")
+	os.WriteFile(stub, []byte("//go:build verif\n\npackage parser\n\nvar verifSimPairs = [][2]int{}\n"), 0o644)
+	tmp := *t
+	tmp.Harness = append(append([]string{}, t.Harness...), stub)
+	hasDump := false
+	for _, h := range tmp.Harness {
+		if strings.HasSuffix(h, "genparser/dump.go") {
+			hasDump = true
+		}
+	}
+	if !hasDump {
+		tmp.Harness = append(tmp.Harness, VerifRoot+"/harness/genparser/dump.go")
+	}
+	d, err := c.nativeTables(&tmp)
+	if err != nil {
+		return Job{}, err
+	}
+	tidx := map[string]int{}
+	for i, n := range r.Terms {
+		tidx[n] = i
+	}
+	seen := map[[2]int]bool{{0, 0}: true}
+	work := [][2]int{{0, 0}}
+	for i := 0; i < len(work); i++ {
+		s, rs := work[i][0], work[i][1]
+		if s >= len(d.Actions) || rs >= len(r.States) {
+			continue
+		}
+		add := func(p [2]int) {
+			if !seen[p] && len(seen) < 4000 {
+				seen[p] = true
+				work = append(work, p)
+			}
+		}
+		for typ, a := range d.Actions[s] {
+			if typ >= len(d.TokNames) {
+				continue
+			}
+			col, ok := tidx[d.TokNames[typ]]
+			if !ok {
+				continue
+			}
+			if ra := r.Resolved[rs][col]; a.K == 2 && ra >= 2 {
+				add([2]int{a.V, ra - 2})
+			}
+		}
+		for k, n := range r.NTs {
+			colg, ok := d.NTType[n]
+			if !ok || colg >= len(d.Goto[s]) {
+				continue
+			}
+			if tgt := d.Goto[s][colg]; tgt >= 0 {
+				if rt, ok := r.Goto[rs][-(k + 1)]; ok {
+					add([2]int{tgt, rt})
+				}
+			}
+		}
+	}
+	var pb strings.Builder
+	pb.WriteString("//go:build verif\n\npackage parser\n\n// candidate simulation relation (generated state, reference state)\nvar verifSimPairs = [][2]int{")
+	for _, p := range work {
+		fmt.Fprintf(&pb, "{%d, %d}, ", p[0], p[1])
+	}
+	pb.WriteString("}\n")
+	f := filepath.Join(t.ModDir, "_verifdata", "simpairs.go")
+	os.WriteFile(f, []byte(pb.String()), 0o644)
+	st := *t
+	st.Harness = append(append([]string{}, t.Harness...), f, VerifRoot+"/harness/genparser/tablesim.go")
+	run.Harness = "VerifTableSim"
+	run.LoopBound = 600
+	run.ForkFuncs = nil
+	run.Params = nil
+	return Job{
+		Name:           name,
+		Target:         &st,
+		Run:            run,
+		Bounds:         fmt.Sprintf("grammar %s: every pair (%d) of the simulation relation between the generated automaton and the reference LR(1) automaton, every terminal/end of input (symbolic), every nonterminal (symbolic): unbounded in the length of the input", g.Name, len(work)),
+		RequiredCovers: []string{"end"},
+	}, nil
 }
 
 var tablesRe = regexp.MustCompile(`(?m)^VERIF-TABLES: (.*)$`)
@@ -126,6 +216,11 @@ func checkC12(c *Ctx) {
 				}
 				run.SkipInitFuncs = func(p string) bool { return p == "gen/parser" }
 				run.Setup = injectTables(d)
+			}
+			if sj, err := c.simJob(t, g0, BuildRefLR(g0), fmt.Sprintf("parser-tables %s", g.Name), run); err == nil {
+				jobs = append(jobs, sj)
+			} else {
+				c.Inconclusive = append(c.Inconclusive, fmt.Sprintf("%s: table simulation: %v", g.Name, err))
 			}
 			for n := 0; n <= maxN; n++ {
 				r := run
